@@ -108,22 +108,23 @@ Qed.
 Section Detect.
   Variable valid : bytes -> bool.
   Variable F : list (Z -> Z).
-  Variable K m : Z.
+  Variable K : bytes -> Z.       (* contribution of the characters that are not digits under test *)
+  Variable m : Z.
   Variable n : nat.
   Hypothesis mpos : 0 < m.
   Hypothesis Flen : List.length F = n.
-  Hypothesis lin : forall c, List.length c = n -> valid c = true -> (fsum F (digs c) + K) mod m = 0.
+  Hypothesis lin : forall c, List.length c = n -> valid c = true -> (fsum F (digs c) + K c) mod m = 0.
 
   Theorem detect_single c i b :
-    List.length c = n -> (i < n)%nat -> detects (nthF i F) m ->
+    List.length c = n -> (i < n)%nat -> detects (nthF i F) m -> K (set_nth i b c) = K c ->
     valid c = true -> is_digit (nthb i c) = true -> is_digit b = true -> b <> nthb i c ->
     valid (set_nth i b c) = false.
   Proof.
-    intros Hc Hi Hdet Hv Hold Hnew Hne.
+    intros Hc Hi Hdet HK Hv Hold Hnew Hne.
     destruct (valid (set_nth i b c)) eqn:Hv'; [exfalso | reflexivity].
     pose proof (lin c Hc Hv) as L1.
     assert (Hc' : List.length (set_nth i b c) = n) by (rewrite set_nth_length; exact Hc).
-    pose proof (lin _ Hc' Hv') as L2.
+    pose proof (lin _ Hc' Hv') as L2. rewrite HK in L2.
     unfold digs in L2. rewrite set_nth_map in L2. fold (digs c) in L2.
     rewrite fsum_set_nth in L2 by (try rewrite Flen; unfold digs; try rewrite map_length; lia).
     rewrite digs_nth in L2 by lia.
@@ -193,6 +194,30 @@ Ltac split_all H :=
 (* proves is_digit x && (is_digit y && ...) = true from hypotheses is_digit _ = true *)
 Ltac solve_digits :=
   repeat match goal with H : is_digit _ = true |- _ => rewrite H; clear H end; reflexivity.
+
+(* replaces every `dv b` by a fresh integer variable (keeps lia and the kernel away from bytes) *)
+Ltac abstract_dv :=
+  repeat match goal with
+         | H : context [dv ?b] |- _ => let z := fresh "z" in let E := fresh "E" in remember (dv b) as z eqn:E; clear E
+         | |- context [dv ?b] => let z := fresh "z" in let E := fresh "E" in remember (dv b) as z eqn:E; clear E
+         end.
+
+(* unfolds num_of on explicit lists into Horner form by rewriting with an equation proved by
+   reflexivity in the direction the kernel checks quickly (cbn in H can take minutes at Qed) *)
+Ltac horner_in H :=
+  repeat match type of H with
+         | context [num_of ?l] =>
+           let r := eval cbn [num_of fold_left] in (num_of l) in
+           let E := fresh "E" in
+           assert (E : num_of l = r) by reflexivity; rewrite E in H; clear E
+         end.
+Ltac horner :=
+  repeat match goal with
+         | |- context [num_of ?l] =>
+           let r := eval cbn [num_of fold_left] in (num_of l) in
+           let E := fresh "E" in
+           assert (E : num_of l = r) by reflexivity; rewrite E; clear E
+         end.
 
 Ltac solve_detect :=
   first [ apply detects_mul; [lia | reflexivity]
